@@ -267,6 +267,14 @@ func (p *Prog) verifyFunc(fn *ssa.Function, ct *Contract) (fx *Fx, err error) {
 			fin.Ghost[gs.Label] = coerceTo(p.elab(fx, gs.X, post).Scalar(), fin.Ghost[gs.Label].S)
 			set[gs.Label] = true
 		}
+		// a monotone counter the contract lets the function change must not have decreased (callers assume so)
+		for _, g := range ct.GhostHavoc {
+			if p.GhostMono[g] {
+				if t, ok := bodyGhost[g]; ok && t != fx.Entry.Ghost[g] && t.S.K == SBV {
+					fx.oblige(fin, "post", "monotone:"+g, BVOp("bvuge", t, fx.Entry.Ghost[g]), fn.Pos())
+				}
+			}
+		}
 		for g, t := range bodyGhost {
 			if set[g] || t == fx.Entry.Ghost[g] || ct.Sweep || ct.NoFrame {
 				continue
@@ -342,6 +350,7 @@ func (p *Prog) verifyFunc(fn *ssa.Function, ct *Contract) (fx *Fx, err error) {
 	if os.Getenv("GVC_DEBUG_NAMES") != "" {
 		fmt.Fprintf(os.Stderr, "[returns %s] %d split=%v\n", fnName(fn), len(fx.Returns), ct.SplitReturns)
 	}
+	grouped := false
 	if ct.SplitReturns && len(fx.Returns) > 12 {
 		// many paths reach the same return statements: merge the states per return statement (block), in order of
 		// discovery, so that there is still one set of exit obligations per statement
@@ -371,8 +380,9 @@ func (p *Prog) verifyFunc(fn *ssa.Function, ct *Contract) (fx *Fx, err error) {
 			merged = append(merged, &retState{St: m, Res: res, Pos: g[0].Pos, Blk: b})
 		}
 		fx.Returns = merged
+		grouped = true
 	}
-	if ct.SplitReturns && len(fx.Returns) > 1 && len(fx.Returns) <= 12 {
+	if ct.SplitReturns && len(fx.Returns) > 1 && (len(fx.Returns) <= 12 || (grouped && len(fx.Returns) <= 40)) {
 		// one set of exit obligations per return statement (no merged ite terms); ordinal = order of discovery
 		rets := fx.Returns
 		var pcs []*Term
